@@ -10,6 +10,7 @@ import core
 
 RULE = ("exhaustive: every trajectory over {0,1,2,NaN} of length <= L (quick 5, thorough 7) x tau in {1,2,3,7} x both window "
         "modes, then random long trajectories (<= 2000 frames, <= 30 cells, NaN runs, unvisited cells, tau up to 50); "
+        "plus sequences of 2-6 requests on ONE MSM object (single lags and get_all_tau arrays with repeated / fractional lags); "
         "a case is non-trivial when at least one window is counted; distinct by (trajectory, n, tau, mode)")
 CHUNK = 3000
 
@@ -40,6 +41,20 @@ def cases(ctx):
             xs.append(None if rng.random() < pn else cur)
         tau = rng.choice([1, 1, 2, 3, 5, 7, 10, 50])
         yield {"kind": "msm", "xs": xs, "n": n, "tau": tau, "noncorr": rng.random() < 0.5}
+    # histories of calls on ONE MSM object (the matrix must be a function of (trajectory, n, tau, mode) only,
+    # whatever was asked of the object before): repeated requests, get_all_tau with repeated / float lags
+    for _ in range(60 if ctx.quick else 1200):
+        n = rng.choice([2, 3, 5, 8])
+        L = rng.randint(0, 60)
+        xs = [None if rng.random() < 0.1 else rng.randrange(n) for _k in range(L)]
+        calls = []
+        for _c in range(rng.randint(2, 6)):
+            if rng.random() < 0.6:
+                calls.append({"f": "one", "tau": rng.choice([1, 1, 2, 3, 5]), "noncorr": rng.random() < 0.5})
+            else:
+                taus = [rng.choice([1, 2, 2, 3, 4]) + rng.choice([0, 0, 0.5]) for _t in range(rng.randint(1, 4))]
+                calls.append({"f": "all", "taus": taus, "noncorr": rng.random() < 0.5})
+        yield {"kind": "msm_hist", "xs": xs, "n": n, "calls": calls}
     # window generator directly, with other steps
     for _ in range(60 if ctx.quick else 600):
         L = rng.randint(0, 40)
@@ -55,6 +70,18 @@ def impl(case):
             if case["kind"] == "msm":
                 T = MSM(xs, case["n"]).get_one_tau_transition_matrix(case["tau"], case["noncorr"])
                 return {"T": T.toarray().tolist(), "shape": list(T.shape)}
+            elif case["kind"] == "msm_hist":
+                obj = MSM(xs, case["n"])
+                res = []
+                for c in case["calls"]:
+                    if c["f"] == "one":
+                        T = obj.get_one_tau_transition_matrix(c["tau"], c["noncorr"])
+                        res.append({"tau": int(c["tau"]), "noncorr": c["noncorr"], "T": T.toarray().tolist()})
+                    else:
+                        Ts = obj.get_all_tau_transition_matrices(np.array(c["taus"]), noncorrelated_windows=c["noncorr"])
+                        for tau, T in zip(c["taus"], Ts):
+                            res.append({"tau": int(tau), "noncorr": c["noncorr"], "T": T.toarray().tolist()})
+                return {"hist": res}
             else:
                 return {"w": [list(w) for w in window(xs, case["tau"], case["step"])]}
     except Exception as e:
@@ -62,12 +89,34 @@ def impl(case):
 
 
 def model_ops(case, out):
+    if case["kind"] == "msm_hist":
+        if "err" in out:
+            return []
+        return [{"op": "msm", "xs": case["xs"], "n": case["n"], "tau": r["tau"], "noncorr": r["noncorr"]} for r in out["hist"]]
     if case["kind"] == "msm":
         return [{"op": "msm", "xs": case["xs"], "n": case["n"], "tau": case["tau"], "noncorr": case["noncorr"]}]
     return [{"op": "windows", "xs": case["xs"], "tau": case["tau"], "step": case["step"]}]
 
 
 def compare(ctx, case, out, mouts):
+    if case["kind"] == "msm_hist":
+        if "err" in out:
+            ctx.corr("msm_hist/outcome", case, out, "ok")
+            return
+        n = case["n"]
+        for k, (r, m) in enumerate(zip(out["hist"], mouts)):
+            if "err" in m:
+                ctx.corr("msm_hist/outcome", case, r, m)
+                return
+            M = [[float(core.unrat(v)) for v in row] for row in m["ok"]]
+            T = np.array(r["T"]).reshape(n, n)
+            if not np.allclose(T, np.array(M).reshape(n, n), rtol=1e-14, atol=0):
+                ctx.corr(f"msm_hist/result_{k}", case, {"call": k, "tau": r["tau"], "noncorr": r["noncorr"], "T": r["T"]}, M)
+                return
+        ctx.branch("history")
+        if any(any(any(v != 0 for v in row) for row in r["T"]) for r in out["hist"]):
+            ctx.nt(("hist", tuple(case["xs"]), repr(case["calls"])))
+        return
     m = mouts[0]
     if "err" in out or "err" in m:
         if out.get("err") != m.get("err"):
@@ -125,6 +174,19 @@ def spec(xs, n, tau, noncorr):
 
 
 def oracle(ctx, case, out):
+    if case["kind"] == "msm_hist":
+        if "err" in out:
+            ctx.fail("C12:exception", f"a call in a history raised {out['err']}", case)
+            return
+        n = case["n"]
+        for k, r in enumerate(out["hist"]):
+            S, _w = spec(case["xs"], n, r["tau"], r["noncorr"])
+            Sf = np.array([[float(v) for v in row] for row in S]).reshape(n, n)
+            if not np.allclose(np.array(r["T"]).reshape(n, n), Sf, rtol=1e-13, atol=0):
+                ctx.fail("C12:entry_formula_history", f"result {k} of a sequence of requests on one MSM object (tau={r['tau']}, "
+                         f"non-overlapping={r['noncorr']}) differs from (c_ij+c_ji)/sum_k(c_ik+c_ki)", case, Sf.tolist(), r["T"])
+                return
+        return
     if case["kind"] != "msm":
         return
     if "err" in out:
